@@ -419,6 +419,34 @@ pub fn run(tier: Tier) -> i32 {
     rep.violations(r.violations);
     rep.sub.push(json!({"sub":"credentials-file","strings":n,"files":r.evaluations,"completed":r.completed}));
     let mut complete = r.completed;
+    // every pair of the file is a credential, also when pairs share a user name (password rotation)
+    for (k, pairs) in [vec![("dup", "pw-one"), ("dup", "pw-two")], vec![("a", "x"), ("dup", "pw-one"), ("b", "y"), ("dup", "pw-two"), ("dup", "pw-three")], vec![("same", "same"), ("same", "same")]].iter().enumerate() {
+        let case = json!({"kind":"shared-username","pairs":pairs});
+        let text: String = pairs.iter().map(|(u, p)| format!("[[client]]\nusername = \"{u}\"\npassword = \"{p}\"\n")).collect();
+        let path = dir.join(format!("cred-shared-{k}.toml"));
+        let _ = std::fs::write(&path, &text);
+        let settings_text = format!("listen_address = \"127.0.0.1:4443\"\ncredentials_file = \"{}\"\n[listen_protocols.http2]\n", path.display());
+        match super::guarded(|| toml::from_str::<Settings>(&settings_text)) {
+            Err(p) => rep.violation(Violation::new("C13:credentials:panic:shared-username", p, case)),
+            Ok(Err(e)) => rep.violation(Violation::new("C13:credentials:rejected:shared-username", format!("a credentials file with a repeated user name is rejected: {e}"), case)),
+            Ok(Ok(st)) => {
+                let auth = RegistryBasedAuthenticator::new(st.get_clients());
+                let id = IdChain::empty();
+                for (u, p) in pairs {
+                    if auth.authenticate(&Source::ProxyBasic(b64(u, p).into()), &id) != Status::Pass {
+                        rep.violation(Violation::new("C13:authenticator:rejects-configured-pair:shared-username", format!("the file lists {pairs:?}; the pair {u:?}/{p:?} is not accepted"), case.clone()));
+                        break;
+                    }
+                }
+                if auth.authenticate(&Source::ProxyBasic(b64("dup", "pw-other").into()), &id) == Status::Pass {
+                    rep.violation(Violation::new("C13:authenticator:accepts-other-pair:shared-username", "a password that is in no pair is accepted".to_string(), case));
+                }
+                classes.insert("shared-username:ok".into());
+            }
+        }
+        let _ = std::fs::remove_file(&path);
+        rep.add("evaluations", 1);
+    }
 
     // (B) wizard round trip
     let wz_pairs: Vec<(String, String)> = {
